@@ -607,6 +607,9 @@ func (m *memoryStore) incrLSN() {
 }
 
 func newFileStore(path string, autoFlushCache bool) (*fileStore, error) {
+	if err := verifOpenFault(path); err != nil {
+		return nil, err
+	}
 	file, err := os.OpenFile(path, os.O_CREATE|os.O_RDWR, 0644)
 	if err != nil {
 		return nil, err
